@@ -65,6 +65,11 @@ impl W {
                             self.e(x);
                             self.ev.push(Ev::Ref(n.clone()));
                         }
+                        S::LetRec(n, x) => {
+                            let g = self.new_group();
+                            self.ev.push(Ev::Bind(n.clone(), g));
+                            self.e(x);
+                        }
                     }
                 }
                 self.e(last);
